@@ -335,6 +335,9 @@ impl BinaryMatrix for SparseBinaryMatrix {
 
     fn enable_column_access_acceleration(&mut self) {
         self.column_index_disabled = false;
+        // The index is rebuilt from the current entries below, so no column is stale any more
+        #[cfg(debug_assertions)]
+        self.debug_indexed_column_valid.fill(true);
         let mut builder = ImmutableListMapBuilder::new(self.height);
         for (physical_row, elements) in self.sparse_elements.iter().enumerate() {
             for (physical_col, _) in elements.keys_values() {
